@@ -213,7 +213,19 @@ func c09Run(t *testing.T, sc Scenario, res *Result) {
 				if i%2 == 0 || sigma != "never" {
 					words = []uint64{r.next(), r.next(), r.next(), r.next()}
 				}
-				writeFailFile(name, fmt.Sprintf("20260101000000-%d", i), rapidVersion(), 1, words, "planted")
+				p := writeFailFile(name, fmt.Sprintf("20260101000000-%d", i), rapidVersion(), 1, words, "planted")
+				if i%3 == 2 {
+					// the file is a symbolic link into a store (testdata populated by a build system)
+					store := filepath.Join("testdata", "store")
+					os.MkdirAll(store, 0o775)
+					if abs, err := filepath.Abs(filepath.Join(store, fmt.Sprintf("f%d", i))); err == nil && os.Rename(p, abs) == nil {
+						if os.Symlink(abs, p) != nil {
+							os.Rename(abs, p)
+						} else {
+							res.inc("planted_fail_files_that_are_symlinks")
+						}
+					}
+				}
 			}
 		}
 		flagN := sc.N
